@@ -22,8 +22,103 @@ func factsAll() {
 }
 
 func factsKeeper() {
-	intFact("plotterMaxChanSize", "poc/engine/spacekeeper/capacity", "plotterMaxChanSize")
-	intFact("plotterMaxChanSizeV2", "poc/engine.v2/spacekeeper/skchia", "plotterMaxChanSize")
+	const v1, v2 = "poc/engine/spacekeeper/capacity", "poc/engine.v2/spacekeeper/skchia"
+	intFact("plotterMaxChanSize", v1, "plotterMaxChanSize")
+	intFact("plotterMaxChanSizeV2", v2, "plotterMaxChanSize")
+	// every send on the plotter channel is a `select` case next to a `default` (never blocks under the state lock)
+	for _, x := range []struct{ lean, dir string }{{"keeperSendsNonBlocking", v1}, {"keeperSendsNonBlockingV2", v2}} {
+		p := loadPkg(x.dir)
+		sends, guarded := 0, 0
+		for _, f := range p.files {
+			ast.Inspect(f, func(n ast.Node) bool {
+				switch t := n.(type) {
+				case *ast.SelectStmt:
+					hasDefault := false
+					for _, c := range t.Body.List {
+						if cc := c.(*ast.CommClause); cc.Comm == nil {
+							hasDefault = true
+						}
+					}
+					for _, c := range t.Body.List {
+						if s, ok := c.(*ast.CommClause).Comm.(*ast.SendStmt); ok && isPlotterChan(s.Chan) && hasDefault {
+							guarded++
+						}
+					}
+				case *ast.SendStmt:
+					if isPlotterChan(t.Chan) {
+						sends++
+					}
+				}
+				return true
+			})
+		}
+		emit("/-- %s: %d sends on `newQueuedWorkSpaceCh`, %d of them `select` cases with a `default` -/\ndef %s : Bool := %v", x.dir, sends, guarded, x.lean, sends > 0 && sends == guarded)
+	}
+	// the v2 keeper (skchia) is the same program text as the v1 keeper for everything the model covers:
+	// the request methods and the plotter loop, up to the engine package name, the id used for the priority
+	// tie-break, the verification gates, and the plot call (v2 spaces do not plot: `ws.Plot()` returns at once)
+	norm := func(src string) string {
+		var out []string
+		for _, l := range strings.Split(src, "\n") {
+			t := strings.TrimSpace(l)
+			if t == "" || strings.HasPrefix(t, "//") || strings.Contains(t, "verifGate(") || strings.Contains(t, "plotResult") || t == "ws.Plot()" {
+				continue
+			}
+			t = strings.ReplaceAll(t, "PubKeyHash()", "ID()")
+			t = strings.ReplaceAll(t, "PlotID()", "ID()")
+			out = append(out, t)
+		}
+		return strings.Join(out, "\n")
+	}
+	fnText := func(dir, name string) string {
+		fd := findFuncAny(dir, name)
+		if fd == nil {
+			return "<missing " + name + ">"
+		}
+		return norm(srcOf(dir, fd))
+	}
+	same := true
+	var diffs []string
+	for _, fn := range []string{"PlotWS", "MineWS", "StopWS", "RemoveWS", "DeleteWS", "cancelRequests", "spacePlotter", "PopItem", "Delete", "Reset", "priority", "newQueuedWorkSpace", "OnStop", "getWsByFlags"} {
+		if fnText(v1, fn) != fnText(v2, fn) {
+			same = false
+			diffs = append(diffs, fn)
+		}
+	}
+	emit("/-- the functions the keeper model covers have the same text in the v1 and v2 keepers (differing: %v) -/\ndef keeperV2SameAsV1 : Bool := %v", diffs, same)
+}
+
+func isPlotterChan(e ast.Expr) bool {
+	s, ok := e.(*ast.SelectorExpr)
+	return ok && s.Sel.Name == "newQueuedWorkSpaceCh"
+}
+
+// findFuncAny: first function or method of that name in the package (file order).
+func findFuncAny(dir, name string) *ast.FuncDecl {
+	p := loadPkg(dir)
+	var names []string
+	for n := range p.files {
+		names = append(names, n)
+	}
+	sort.Strings(names)
+	for _, n := range names {
+		for _, d := range p.files[n].Decls {
+			if fd, ok := d.(*ast.FuncDecl); ok && fd.Name.Name == name {
+				return fd
+			}
+		}
+	}
+	return nil
+}
+
+func srcOf(dir string, fd *ast.FuncDecl) string {
+	p := loadPkg(dir)
+	pos, end := p.fset.Position(fd.Pos()), p.fset.Position(fd.End())
+	b, err := os.ReadFile(pos.Filename)
+	if err != nil {
+		fatal("%v", err)
+	}
+	return string(b[pos.Offset:end.Offset])
 }
 
 // factsWalletTx: for every exported method of KeystoreManagerForPoC that runs db.Update — how many Update calls,
